@@ -5,8 +5,8 @@ package main
 
 import (
 	"fmt"
-	"strconv"
 	"go/types"
+	"strconv"
 
 	"golang.org/x/tools/go/ssa"
 )
